@@ -246,7 +246,35 @@ fn gen_constructor_cases(g: &mut Gen) {
     }
 }
 
+fn gen_overflow_constructor_cases(g: &mut Gen) {
+    // element counts that do not fit in a usize: rejected, never accepted with a wrapped product
+    const H: usize = 1 << 63;
+    const M: usize = usize::MAX;
+    for shape in [
+        vec![("a", H), ("b", 2usize)],
+        vec![("a", 2), ("b", H)],
+        vec![("a", M), ("b", M)],
+        vec![("a", M), ("b", 2)],
+        vec![("a", 1 << 32), ("b", 1 << 32)],
+        vec![("a", 1 << 32), ("b", 1 << 31), ("c", 2)],
+        vec![("a", H), ("b", 2), ("c", 0)],
+        vec![("a", 0), ("b", H), ("c", 2)],
+        vec![("a", H), ("a", 2)],
+        vec![("a", M)],
+        vec![("a", 1 << 22), ("b", 1 << 21), ("c", 1 << 21), ("d", 2)],
+    ] {
+        let shape: Vec<(&'static str, usize)> = shape.iter().map(|(n, l)| (intern(n), *l)).collect();
+        for n in [0usize, 1, 2] {
+            for kind in ["from", "try_from"] {
+                g.op(format!("@ {} {} {}", kind, show_shape(&shape), n));
+                g.count("constructor.count_overflows_usize");
+            }
+        }
+    }
+}
+
 fn gen_extra_constructor_cases(g: &mut Gen) {
+    gen_overflow_constructor_cases(g);
     // Tensor::from_fn on shapes it must reject (the producer is never or partly run)
     for shape in [
         vec![("a", 0usize)],
@@ -314,6 +342,40 @@ pub fn gen(g: &mut Gen) {
         gen_tensor_case(g, &shape, false, false, ctor);
     }
     gen_large_cases(g);
+    gen_names_cases(g);
+}
+
+/// Adversarial dimension names: the names the library uses internally ("row", "column", "r",
+/// "c", …), names that are prefixes of one another, one-letter names and the empty name; every
+/// ordering, plus orderings that replace one name by a look-alike the tensor does not have.
+fn gen_names_cases(g: &mut Gen) {
+    for lens in [vec![3], vec![2, 3], vec![2, 2], vec![3, 2, 2], vec![1, 2, 1], vec![2, 3, 1, 2], vec![2, 1, 2, 1, 2]] {
+        for _round in 0..3 {
+            let d = lens.len();
+            let names = adversarial_names(&mut g.rng, d);
+            let shape: Vec<(&'static str, usize)> = names.iter().zip(lens.iter()).map(|(n, l)| (*n, *l)).collect();
+            let ctor = if g.rng.chance(1, 3) { "from_fn" } else { "from" };
+            gen_tensor_case_sized(g, &shape, 24, &[], false, 12, ctor);
+            g.count("names.adversarial_case");
+            let others: Vec<&str> = ADVERSARIAL_NAMES.iter().copied().filter(|n| !names.contains(n)).collect();
+            for k in 0..d {
+                let mut bad = names.clone();
+                bad[k] = *g.rng.pick(&others);
+                let via = *g.rng.pick(&INDEX_VIAS);
+                g.op(format!("index_by {} via={}", show_names(&bad), via));
+                g.op(format!("dim {} via=tensor", bad[k]));
+                g.count("names.unknown_lookalike");
+            }
+        }
+    }
+    // constructors: repeated adversarial names (incl. the empty name twice) must be rejected
+    for (a, b) in [(EMPTY_NAME, EMPTY_NAME), ("row", "row"), ("r", "rr"), ("row", "rows"), (EMPTY_NAME, "a")] {
+        for kind in ["from", "try_from"] {
+            g.op(format!("@ {} {}:2,{}:3 6", kind, a, b));
+        }
+        g.op(format!("@ from_fn {}:2,{}:3", a, b));
+        g.count("names.constructor_pairs");
+    }
 }
 
 /// Large cases (also in the quick tier): dimensionality 5 with all 120 orderings, dimensionality
